@@ -26,6 +26,7 @@ static int switch_pct_;
 static uint64_t nswitch;
 static uint32_t cores_override;
 static __thread int self_idx = -1;
+static int last_pick = -1;
 
 bool baton_active(void) { return active; }
 int baton_self(void) { return self_idx; }
@@ -37,7 +38,7 @@ void baton_begin(uint64_t sched_seed, int switch_pct)
 {
     vrng_seed(&srng, sched_seed);
     memset(th, 0, sizeof th);
-    nth = 0; turn = -1; nswitch = 0; switch_pct_ = switch_pct; active = true;
+    nth = 0; turn = -1; nswitch = 0; switch_pct_ = switch_pct; active = true; last_pick = -1;
 }
 void baton_end(void) { active = false; cores_override = 0; }
 
@@ -83,14 +84,15 @@ void baton_yield(void)
     pthread_mutex_unlock(&mu);
 }
 
-static void schedule_until_done(void)
+static void schedule_until(int target)     /* target >= 0: until that thread has finished; -1: until all have */
 {
-    int last = -1;
+    int last = last_pick;
     pthread_mutex_lock(&mu);
     for (;;) {
         int run[BATON_MAX], n = 0;
         for (int i = 0; i < nth; i++) if (!th[i].finished) run[n++] = i;
         if (n == 0) break;
+        if (target >= 0 && th[target].finished) break;
         int pick;
         bool last_ok = false;
         for (int i = 0; i < n; i++) if (run[i] == last) last_ok = true;
@@ -103,12 +105,13 @@ static void schedule_until_done(void)
         pthread_cond_broadcast(&cv);
         while (turn != -1) pthread_cond_wait(&cv, &mu);
     }
+    last_pick = last;
     pthread_mutex_unlock(&mu);
 }
 
 void baton_run_all(void)
 {
-    schedule_until_done();
+    schedule_until(-1);
     for (int i = 0; i < nth; i++) if (!th[i].joined) { __real_pthread_join(th[i].tid, NULL); th[i].joined = true; }
 }
 
@@ -123,10 +126,10 @@ int __wrap_pthread_create(pthread_t *t, const pthread_attr_t *a, void *(*f)(void
 int __wrap_pthread_join(pthread_t t, void **r)
 {
     if (!active) return __real_pthread_join(t, r);
-    /* first join: the caller becomes the coordinator until every managed thread has finished */
-    schedule_until_done();
+    /* the caller becomes the coordinator until the thread it asks for has finished */
     for (int i = 0; i < nth; i++) {
         if (pthread_equal(th[i].tid, t) && !th[i].joined) {
+            schedule_until(i);
             th[i].joined = true;
             if (r) *r = th[i].ret;
             return __real_pthread_join(t, NULL);
